@@ -38,7 +38,7 @@ MUTATORS = {"append", "extend", "insert", "pop", "remove", "clear", "update", "s
             "sort", "reverse", "fill", "put", "resize", "popitem", "itemset", "__setitem__", "__delitem__",
             "setflags", "partition", "byteswap", "appendleft", "popleft", "extendleft", "rotate",
             "move_to_end", "subtract", "difference_update", "intersection_update",
-            "symmetric_difference_update"}
+            "symmetric_difference_update", "set", "store", "register", "write", "cache_clear"}
 NP_INPLACE_FUNCS = {"put", "place", "copyto", "putmask", "fill_diagonal", "put_along_axis"}
 CONTAINER_CALLS = {"dict", "list", "set", "defaultdict", "OrderedDict", "Counter", "deque", "bytearray",
                    "array", "zeros", "ones", "empty", "full", "arange", "asarray", "linspace", "eye",
@@ -480,6 +480,18 @@ class Extractor:
         return out
 
     @staticmethod
+    def attr_root(n):
+        """(root name, dotted text) of `a.b.c[...]`-like targets whose base is an attribute chain"""
+        b = n
+        while isinstance(b, ast.Subscript):
+            b = b.value
+        if isinstance(b, ast.Attribute):
+            d = dotted(b)
+            if d:
+                return d[0], ".".join(d)
+        return None
+
+    @staticmethod
     def mutation_target(n):
         """name of the object a node mutates in place, or None"""
         if isinstance(n, ast.Subscript) and isinstance(n.ctx, (ast.Store, ast.Del)):
@@ -643,6 +655,17 @@ class Extractor:
     def mutation(self, f, node, out):
         nm = self.mutation_target(node)
         if nm is None:
+            # f.cache[k] = v / mod.TABLE.update(...) / fn.attr += 1: state hung on a function, class or module
+            tgt = node
+            if isinstance(node, ast.AugAssign):
+                tgt = node.target
+            elif isinstance(node, ast.Call) and isinstance(node.func, ast.Attribute):
+                tgt = node.func.value
+            ar = self.attr_root(tgt) if isinstance(tgt, (ast.Subscript, ast.Attribute)) else None
+            if ar:
+                r = self.lookup(f, ar[0])
+                if r and r[0] in ("func", "class", "nested", "var", "ext") and not (r[0] == "ext" and not r[1].startswith("xrspatial")):
+                    out.append(("atom", "mutate", ("glob", f"{f.mod.name}.{ar[1]}")))
             return
         c = self.cell_of(f, nm)
         if c:
@@ -667,6 +690,16 @@ class Extractor:
             return
         if isinstance(e, ast.Attribute):
             d = dotted(e)
+            if d:
+                r0 = self.lookup(f, d[0])
+                ext0 = r0[1].split(".") if r0 and r0[0] == "ext" else []
+                if ext0 and ext0[0] in ("numpy", "cupy") and "random" in (ext0 + d[1:]):
+                    # `gen = np.random` / passing np.random.shuffle around: whoever gets it uses the GLOBAL generator
+                    out.append(("atom", "draw", ("rng",) if ext0[0] == "numpy" else ("glob", ext0[0] + ".random")))
+                    return
+                if ext0 and ext0[0] == "random":
+                    out.append(("atom", "draw", ("glob", "random")))
+                    return
             if d and len(d) >= 2:
                 # module.NAME of another xrspatial module
                 r = self.lookup(f, d[0])
@@ -735,6 +768,13 @@ class Extractor:
         r = self.lookup(f, n.id)
         if r is None:
             return
+        if r[0] == "ext":
+            parts = r[1].split(".")
+            if parts[0] in ("numpy", "cupy") and "random" in parts[1:] and parts[-1] not in RNG_LOCAL:
+                out.append(("atom", "draw", ("rng",) if parts[0] == "numpy" else ("glob", parts[0] + ".random")))
+            elif parts[0] == "random" and parts[-1] not in ("Random", "SystemRandom"):
+                out.append(("atom", "draw", ("glob", "random")))
+            return
         if r[0] == "nested":
             out.append(("call", r[1].fid))
         elif r[0] == "func":
@@ -755,9 +795,10 @@ class Extractor:
         if not isinstance(e.func, (ast.Name,)) and not d:
             self.expr(f, e.func, out)
         elif isinstance(e.func, ast.Attribute):
-            # the object a method is called on
-            base = e.func.value
-            self.expr(f, base, out)
+            # the object a method is called on (a dotted path into an imported module is not an object)
+            r0 = self.lookup(f, d[0]) if d else None
+            if not (r0 and r0[0] == "ext"):
+                self.expr(f, e.func.value, out)
         for a in e.args:
             self.expr(f, a.value if isinstance(a, ast.Starred) else a, out)
         for k in e.keywords:
@@ -1217,8 +1258,45 @@ def effects(repo):
     return "Effects.lean", "\n".join(out) + "\n", rep
 
 
+POISON = """import XrsVerif.Model.Effects
+/-! GENERATED by harness/facts_effects.py -- the extractor FAILED on the current source: {why}
+    Every value below is poisoned so that no theorem of Props/C11.lean checks. -/
+namespace XrsVerif.Gen
+open XrsVerif.Effects
+def poisoned : Summary := {{
+  name := "extractor-failed"
+  isPublic := true
+  prog := .op (.mutate (.glob "extractor-failed")) .nil
+  deps := ["agg.values"]
+  tasks := []
+  kernels := []
+}}
+def summary_perlin_perlin : Summary := poisoned
+def summary_terrain_generate_terrain : Summary := poisoned
+def summary_bump_bump : Summary := poisoned
+def summary_proximity_proximity : Summary := poisoned
+def allSummaries : List Summary := [poisoned]
+def taskSummaries : List Summary := [poisoned]
+def unresolvedTasks : List String := []
+def volatile : List Cell := []
+def kf_focal__apply_numpy : KernelFacts := {{ name := "extractor-failed", parallel := true, prange := true, racy := true, cache := true, fastmath := true }}
+def allKernelFacts : List KernelFacts := [kf_focal__apply_numpy]
+def moduleTables : List String := []
+def mutableDefaults : List String := []
+def globalWrites : List String := []
+end XrsVerif.Gen
+"""
+
+
 def generate(repo):
-    yield effects(repo)
+    try:
+        yield effects(repo)
+    except Exception as ex:  # noqa: BLE001 -- the translator is shared by every property: never crash it
+        import traceback
+        why = (type(ex).__name__ + ": " + str(ex)).replace("-/", "- /")[:300]
+        yield ("Effects.lean", POISON.format(why=why),
+               dict(ok=False, why=why, trace=traceback.format_exc()[-1500:], functions={}, kernels={}, tables=[], defaults=[],
+                    global_writes=[], public=[], modules=[], volatile=[], tasks_resolved=[], tasks_unresolved=[]))
 
 
 if __name__ == "__main__":
